@@ -12,6 +12,7 @@ from typing import Dict, List, Optional, Set, Tuple
 
 from ..model import FuncInfo, ClassInfo, iter_own_nodes, strip_opt
 from ..mutation import Mutations, FRESH, is_fresh
+from ..flow import atomic_facts
 from .shared import module_state_instances
 
 GROW = ('append', 'extend', 'insert', 'add', 'update', 'setdefault', 'augmented', '__iadd__', 'appendleft')
@@ -194,6 +195,7 @@ def _idempotent(ctx, mut: Mutations, parser: ClassInfo, fresh_attrs):
                 if _is_fresh_reset(mut, m, stmt, attr) or _calls_resetter(ctx, mut, parser, m, stmt, attr):
                     reset_idx = k
                     break
+            _stale_returns(ctx, mut, parser, m, attr, reset_idx)
             ok = grow_idx is not None and reset_idx is not None and reset_idx < grow_idx
             run.add('C16.idempotent', m.module.name, m.qualname, f'{m.qualname} grows and returns self.{attr}', ok,
                     f'self.{attr} is re-initialised with a fresh value before the first growth' if ok else
@@ -208,6 +210,57 @@ def _idempotent(ctx, mut: Mutations, parser: ClassInfo, fresh_attrs):
     elif n == 0:
         run.holds('C16.idempotent', process.module.name, process.qualname, 'process',
                   'no public method grows instance state that it returns')
+
+
+def _stale_returns(ctx, mut: Mutations, parser: ClassInfo, m: FuncInfo, attr: str, reset_idx: Optional[int]):
+    """A return of the grown instance state that is not preceded by its re-initialisation hands out the result of an
+    EARLIER call.  That is only sound when it is guarded by a memo flag that every writer of the method's inputs clears."""
+    run = ctx.run
+    body = m.node.body
+    for k, stmt in enumerate(body):
+        if reset_idx is not None and k >= reset_idx:
+            break
+        for r in [x for x in ast.walk(stmt) if isinstance(x, ast.Return) and x.value is not None]:
+            rs = mut.roots(m, r.value)
+            if not any(x[0] == 'self' for x in rs):
+                continue
+            facts = [(ast.unparse(c), pol) for c, pol in atomic_facts(ctx.flow.path_conditions(r))]
+            flags = [t[5:] for t, pol in facts if pol and t.startswith('self.') and t[5:].isidentifier()]
+            if not flags:
+                run.add('C16.idempotent', m.module.name, m.qualname, r, False,
+                        f'`{ast.unparse(r)}` hands out self.{attr} without re-parsing: the result of an earlier call (or of '
+                        f'another document loaded since) is returned', node=r)
+                continue
+            flag = flags[0]
+            # the inputs of the method: instance attributes it reads (through properties as well)
+            inputs = set()
+            for n in iter_own_nodes(m.node):
+                if isinstance(n, ast.Attribute) and isinstance(n.ctx, ast.Load) and isinstance(n.value, ast.Name) and n.value.id == 'self':
+                    inputs.add(n.attr)
+                    prop = parser.methods.get(n.attr)
+                    if prop is not None and prop.is_property:
+                        for x in iter_own_nodes(prop.node):
+                            if isinstance(x, ast.Attribute) and isinstance(x.value, ast.Name) and x.value.id == 'self':
+                                inputs.add(x.attr)
+            inputs -= {flag, attr, attr.lstrip('_')}
+            inputs = {i for i in inputs if i not in parser.methods or parser.methods[i].is_property}
+            bad = []
+            for w in list(parser.methods.values()) + list(parser.setters.values()):
+                if w is m or w.name in ('__init__',):
+                    continue
+                stores = {n.attr for n in iter_own_nodes(w.node) if isinstance(n, ast.Attribute) and isinstance(n.ctx, ast.Store)
+                          and isinstance(n.value, ast.Name) and n.value.id == 'self'}
+                if not (stores & inputs):
+                    continue
+                clears = any(isinstance(n, ast.Assign) and any(ast.unparse(t) == f'self.{flag}' for t in n.targets)
+                             and isinstance(n.value, ast.Constant) and not n.value.value for n in iter_own_nodes(w.node))
+                if not clears:
+                    bad.append(f'{w.qualname} (writes self.{", self.".join(sorted(stores & inputs))})')
+            run.add('C16.idempotent', m.module.name, m.qualname, r, not bad,
+                    f'memoised result guarded by self.{flag}, which every writer of the inputs clears' if not bad else
+                    f'`{ast.unparse(r)}` returns the memoised result while self.{flag} is set, but {"; ".join(bad)} replaces the '
+                    f'input without clearing self.{flag}: the next {m.name}() returns the contents of the previous document',
+                    node=r)
 
 
 def _contains(stmt: ast.AST, node: ast.AST) -> bool:
